@@ -24,6 +24,7 @@ import (
 type countingReader struct {
 	b   []byte
 	pos int
+	max int // > 0: hand out at most max octets per Read (a reader is free to deliver less than asked for)
 }
 
 func (c *countingReader) Read(p []byte) (int, error) {
@@ -32,6 +33,9 @@ func (c *countingReader) Read(p []byte) (int, error) {
 	}
 	if c.pos >= len(c.b) {
 		return 0, io.EOF
+	}
+	if c.max > 0 && len(p) > c.max {
+		p = p[:c.max]
 	}
 	n := copy(p, c.b[c.pos:])
 	c.pos += n
@@ -308,7 +312,7 @@ func TestC06(t *testing.T) {
 			offsets[i] = buf.Len()
 		}
 		// ---- read back through the counting reader
-		rd := &countingReader{b: buf.Bytes()}
+		rd := &countingReader{b: buf.Bytes(), max: rapid.SampledFrom([]int{0, 0, 1, 2, 3, 7}).Draw(rt, "readerDeliversAtMost")}
 		var dec *hessian.Decoder
 		if ser == nil {
 			dec = hessian.NewDecoder(rd, tm)
@@ -378,6 +382,9 @@ func TestC06(t *testing.T) {
 			}
 		}
 		r.Label("api:" + via)
+		if rd.max > 0 {
+			r.Label(fmt.Sprintf("reader delivers at most %d octets per Read", rd.max))
+		}
 		r.Label("len:" + bucket(len(vals)))
 		r.Sample(func() interface{} {
 			return map[string]interface{}{"api": via, "values": descs, "end_offsets": offsets, "octets": buf.Len()}
